@@ -710,7 +710,82 @@ def check_quota_measures_everything(repo, rep):
            'yaql.memoryQuota' % why, loc=ut.loc(fi.node))
 
 
+def check_elements_are_not_drained(repo, rep, uni, scope=None):
+    """R08i: only *parameters* declared Iterable / Iterator / Sequence are
+    wrapped by the limiter; what is found inside them (an element that is
+    itself a lazy host iterator) is not.  Reading such an element through an
+    eager consumer (tuple(t), list(t), sorted(t), set(t) ...) is therefore
+    unbounded: the library reads elements lazily (iter/next/yield from) or
+    through a declared parameter / the to_list delegate."""
+    n = 0
+    if scope is None:
+        scope = [fi for fi, role in uni.evaluation_time()
+                 if fi.module.name.startswith('yaql.standard_library')]
+    for fi in scope:
+        env = None
+        for c in model.calls_in(fi.node, shallow=True):
+            d = repo.resolve(fi.module, c.func, model.scope_locals(fi))
+            if d not in consume.EAGER or consume.EAGER[d] == () or \
+                    not c.args:
+                continue
+            idxs = consume.EAGER[d]
+            idxs = range(len(c.args)) if idxs is None else idxs
+            for i in idxs:
+                if i >= len(c.args) or not isinstance(
+                        c.args[i], ast.Name):
+                    continue
+                a = c.args[i]
+                env = env or uni.env(fi)
+                v = env.ev(a)
+                if not v.tags or not all(t[0] in ('derived', 'const')
+                                         for t in v.tags) or not any(
+                        t[0] == 'derived' for t in v.tags):
+                    continue
+                # an element of a collection parameter: the loop variable
+                # of a loop over it / a subscript of it
+                if not _bound_as_element(fi, a.id):
+                    continue
+                n += 1
+                ok = norm.literal_polarity(
+                    c, fi.node, lambda e: _sized_test(e, a.id)) is True
+                rep.ob('R08i', '%s/%s(%s)' % (fi.key, d.rsplit('.', 1)[-1],
+                                              a.id), ok,
+                       '`%s` reads a whole element of a collection argument '
+                       'at once; elements are not wrapped by the iterator '
+                       'limit (only declared parameters are), so a lazy '
+                       'host iterator found inside the data is drained '
+                       'without any bound' % model.norm(c),
+                       loc=fi.module.loc(c), construct=model.norm(c))
+    return n
+
+
+def _bound_as_element(fi, name):
+    for x in model.walk_shallow(fi.node):
+        if isinstance(x, (ast.For, ast.comprehension)) and any(
+                isinstance(t, ast.Name) and t.id == name
+                for t in ast.walk(x.target)):
+            return True
+    return False
+
+
+def _sized_test(e, name):
+    """isinstance(name, <sized type>) / is_sequence(name): the element is a
+    materialised container."""
+    if isinstance(e, ast.Call) and e.args and isinstance(
+            e.args[0], ast.Name) and e.args[0].id == name:
+        f = model.norm(e.func)
+        if f.endswith('is_sequence') or f == 'isinstance' and any(
+                k in model.norm(e.args[1]) for k in (
+                    'Sequence', 'list', 'tuple', 'str', 'Mapping', 'dict',
+                    'Set', 'set')):
+            return True
+    return None
+
+
 def run(repo, rep):
+    rep.rule('R08i', 'ELEMENTS-ARE-NOT-DRAINED: no eager consumer is applied '
+             'to an element of a collection argument (elements are not '
+             'limit-wrapped)')
     rep.rule('R08a', 'LIMITED-CONSUMPTION: a parameter whose declared type '
              'admits a one-shot iterator but is not limiting is never '
              'consumed by the body')
@@ -750,6 +825,26 @@ def run(repo, rep):
     rep.rule('R08h', 'QUOTA-MEASURES-EVERYTHING: limit_memory_usage sizes '
              'and compares every sample; no kind of value is exempt')
     check_quota_measures_everything(repo, rep)
+    ni = check_elements_are_not_drained(repo, rep, uni)
+    # positive control (the rule has no instance on today's tree)
+    from sa.rules import c09
+    from sa import report as repmod
+    fm = c09.load_fixture(repo, 'c08_fixture.py')
+    repo.modules[fm.name] = fm
+    try:
+        tmp = repmod.Report('C08-fixture', 'quick')
+        check_elements_are_not_drained(
+            repo, tmp, uni, [f for f in fm.functions.values()
+                             if f.parent_func is None])
+        flagged = {o['site'].split(':')[-1].split('/')[0]
+                   for o in tmp.obligations if o['verdict'] != 'ok'}
+    finally:
+        del repo.modules[fm.name]
+    rep.ob('R08i', 'fixtures/c08_fixture.py/positive-control',
+           flagged == {'bad_drains_element', 'bad_sorts_element'},
+           'positive control: expected the two bad_* functions flagged and '
+           'the ok_* ones silent; flagged %s' % sorted(flagged))
+    rep.ob('R08i', 'standard-library', True, '%d eager reads of elements, all of sized containers' % ni, nontrivial=True)
     rep.count(overloads=len(uni.reg.overloads), limiting_parameters=nlim,
               nonlimiting_iterator_admitting_parameters=nparams,
               lazy_call_sites=nl)
